@@ -136,10 +136,13 @@ def run_property(pid, tier="quick", seed=0, only=None, verbose=False, do_bounded
             samples += res.samples[:2]
         # canaries
         cans = con.canaries if tier == "thorough" else con.canaries[:1]
-        for (label, old, new) in cans:
-            c = verify.run_canary(con, label, old, new, min(timeout, 10000))
+        for can in cans:
+            label, old, new = can[:3]
+            c = verify.run_canary(con, label, old, new, min(timeout, 10000), can[3] if len(can) > 3 else None)
             c["contract"] = con.name
             canaries.append(c)
+            if c["status"] == "not-applicable":
+                undecided.append("canary '%s' of %s does not apply any more (%s): update the contract file" % (label, con.name, c.get("reason")))
             if c["status"] == "survived":
                 undecided.append("canary '%s' of %s survived: the contract does not pin this behaviour down" % (label, con.name))
     # obligations that were discharged on the reference tree must still be generated
